@@ -470,6 +470,14 @@ pub fn generate(seed: u64, index: u64, thorough: bool) -> Scenario {
                 body = format!("{}{}{}", "[".repeat(depth), inner, "]".repeat(depth)).into_bytes();
                 body_class = "deeply-nested";
             }
+            19 => {
+                // bytes in front of the document: a UTF-8 byte order mark (whole, or cut short), the
+                // UTF-16 one, leading white space (legal JSON), an XSSI guard; whatever the framework's
+                // own extractor makes of them is what the deserr extractor has to make of them
+                let pre: &[u8] = *rng.pick(&[&b"\xEF\xBB\xBF"[..], b"\xEF\xBB\xBF", b"\xEF\xBB", b"\xFE\xFF", b" \n\t", b")]}'\n"]);
+                body = [pre, &body[..]].concat();
+                body_class = "leading-bytes";
+            }
             18 => {
                 // the document once more, as JSON text inside a JSON string (a client that
                 // stringified twice): well-formed, and a string, whatever its content looks like
